@@ -1,7 +1,7 @@
 (* C10 -- estimates ignore sample order, conditioning-column order and X/Y roles. *)
 From Coq Require Import List ZArith QArith Reals Permutation.
 From CE Require Import Model.Itv Model.KnnCounts Model.Kde Model.PoissonMI Model.PoissonCMI Model.Poisson
-     Proofs.KnnInvProofs Proofs.KdeInvProofs Proofs.PoissonMIProofs Proofs.PoissonSeries Proofs.PoissonCMIProofs Proofs.PoissonCMIValues.
+     Proofs.KnnInvProofs Proofs.KdeInvProofs Proofs.PoissonMIProofs Proofs.PoissonCMIProofs Proofs.PoissonCMIValues.
 Import ListNotations.
 Close Scope Q_scope.
 
@@ -144,7 +144,7 @@ Print Assumptions C10_poisson_conditional_zorder_refuted.
 
 (* the Poisson entropy IS near_certified: the two in-kernel certificates; by C13_complete_accuracy_certificate each says that every partial
    sum of the entropy series from 30 terms on is within 1e-9 of h_half resp. h_one (composed statements:
-   Proofs/PoissonCMIValues.v swap_values_differ_for_the_poisson_entropy_series, zorder_..., checked at build time) *)
+   Proofs/PoissonCMISeries.v swap_values_differ_for_the_poisson_entropy_series, zorder_..., checked when the development is built) *)
 Theorem C10_poisson_entropies_of_the_witness_rates_are_certified :
   check_entropy_full_case (1, 2, 30%nat, Qnum h_half, Zpos (Qden h_half))%Z = true /\
   check_entropy_full_case (1, 1, 30%nat, Qnum h_one, Zpos (Qden h_one))%Z = true.
